@@ -28,6 +28,9 @@ func TestMain(m *testing.M) {
 
 type updCase struct {
 	File vt.B `json:"file"` // the script file, byte for byte
+	// Continue: Params.ContinueOnError as well - lines after a failing one still run, and a later mismatching cmp
+	// against an archive entry is still turned into an update
+	Continue bool `json:"continue_on_error,omitempty"`
 }
 
 func hostFor(work string) tsmodel.Host {
@@ -63,7 +66,7 @@ func checkUpdate(c updCase) *vt.Fail {
 		}
 		seen[f.Name] = true
 	}
-	p := tsmodel.Params{UpdateScripts: true, CustomCmds: true}
+	p := tsmodel.Params{UpdateScripts: true, CustomCmds: true, ContinueOnError: c.Continue}
 	if pre := tsmodel.New(p, hostFor("/WORKDIR"), files).Run(comment); pre.Unmodelled != "" {
 		last.skipped = "unmodelled: " + pre.Unmodelled
 		return nil
@@ -71,13 +74,17 @@ func checkUpdate(c updCase) *vt.Fail {
 	root := tskit.Scratch("c16")
 	defer tskit.RemoveAll(root)
 	r := tskit.NewRecorder()
-	tp := testscript.Params{UpdateScripts: true, Cmds: r.Cmds()}
+	tp := testscript.Params{UpdateScripts: true, Cmds: r.Cmds(), ContinueOnError: c.Continue}
 	ext, useDir := tskit.LayoutFor(orig)
-	rr := tskit.RunInProcess(root, []tskit.ScriptFile{{Name: "s", Data: orig, Ext: ext}}, tskit.RunOpts{Params: tp, Retain: true, Deadline: 2 * time.Minute, UseDir: useDir})
+	rr := tskit.RunInProcess(root, []tskit.ScriptFile{{Name: "s", Data: orig, Ext: ext}}, tskit.RunOpts{Params: tp, Retain: true, Deadline: 30 * time.Second, UseDir: useDir})
 	if len(rr.Subs) != 1 {
 		return vt.Failf("runt-top-level", "RunT: %s %s", rr.Top.Verdict, rr.Top.Log)
 	}
 	sub := rr.Subs[0]
+	if strings.Contains(sub.Log, "test timed out while running command") {
+		// (scripts the reference interpreter accepts end by themselves within milliseconds)
+		return vt.BlockedOrBusy(rec, fmt.Sprintf("the script sat in a command until the harness's safety deadline (30s) interrupted it\nfile:\n%q\nlog:\n%s", orig, trunc(sub.Log, 1000)))
+	}
 	work := filepath.Join(rr.WorkRoot, "script-s")
 	want := tsmodel.New(p, hostFor(work), files).Run(comment)
 	if want.Unmodelled != "" {
@@ -202,7 +209,7 @@ func checkUpdate(c updCase) *vt.Fail {
 		root2 := tskit.Scratch("c16b")
 		defer tskit.RemoveAll(root2)
 		r2 := tskit.NewRecorder()
-		rr2 := tskit.RunInProcess(root2, []tskit.ScriptFile{{Name: "s", Data: after}}, tskit.RunOpts{Params: testscript.Params{Cmds: r2.Cmds()}, Deadline: 2 * time.Minute})
+		rr2 := tskit.RunInProcess(root2, []tskit.ScriptFile{{Name: "s", Data: after}}, tskit.RunOpts{Params: testscript.Params{Cmds: r2.Cmds()}, Deadline: 30 * time.Second})
 		if len(rr2.Subs) != 1 || rr2.Subs[0].Verdict != "pass" {
 			v, l := "?", ""
 			if len(rr2.Subs) == 1 {
@@ -367,7 +374,7 @@ func genUpdate(t *rapid.T) updCase {
 		b.WriteString(marker)
 		b.WriteString(data)
 	}
-	return updCase{File: b.Bytes()}
+	return updCase{File: b.Bytes(), Continue: rapid.IntRange(0, 2).Draw(t, "continue") == 1}
 }
 
 func TestUpdateScripts(t *testing.T) {
@@ -378,6 +385,9 @@ func TestUpdateScripts(t *testing.T) {
 		}
 		if last.updated {
 			cl = append(cl, "has-update")
+			if c.Continue {
+				cl = append(cl, "has-update-under-continue-on-error")
+			}
 		}
 		if !utf8.Valid(c.File) {
 			cl = append(cl, "non-utf8-script")
